@@ -25,11 +25,17 @@ Definition present (s : fs) (p : N) : bool := match slot s p with Empty => false
 (** the content standing for "the bytes the source held when the call began" *)
 Definition content (nonempty : bool) : list N := if nonempty then [1] else [].
 
-Definition model_outcome (is_move : bool) (k : dkind) (otherdev srcmissing nonempty : bool) : outcome :=
+(** [replace] selects the copy strategy the implementation is compared with: writing through the
+    destination path (create + truncate) or temporary file + rename over the destination name *)
+Definition model_outcome (replace is_move : bool) (k : dkind) (otherdev srcmissing nonempty : bool) : outcome :=
   let c := content nonempty in
   let s := scenario k otherdev srcmissing c in
-  let F := scenario_faults k in
-  let (s', r) := if is_move then move_file_f F s src_path (dst_path k) else copy_file_f F s src_path (dst_path k) in
+  let F := scenario_faults replace k in
+  let (s', r) :=
+    if replace then
+      (if is_move then move_replace_f F s src_path (dst_path k) tmp_path else copy_replace_f F s src_path (dst_path k) tmp_path)
+    else
+      (if is_move then move_file_f F s src_path (dst_path k) else copy_file_f F s src_path (dst_path k)) in
   {| o_ok := match r with None => true | Some _ => false end;
      o_src_present := present s' src_path;
      o_src_orig := negb srcmissing && reads s' src_path c;
@@ -51,7 +57,8 @@ Definition outcome_eqb (a b : outcome) : bool :=
   && Bool.eqb (o_src_orig a) (o_src_orig b) && Bool.eqb (o_dst_orig a) (o_dst_orig b)
   && Bool.eqb (o_third_ok a) (o_third_ok b).
 
-Record verdict := { spec : bool; model_eq : bool }.
+(** [model_eq]: agreement with the write-through model, [model_eq_replace]: with the replace model *)
+Record verdict := { spec : bool; model_eq : bool; model_eq_replace : bool }.
 
 Definition nz (x : N) : bool := negb (x =? 0).
 
@@ -61,11 +68,18 @@ Definition check_case (op kind otherdev srcmissing nonempty ok srcp srco dsto th
   let k := kind_of_N kind in
   let o := {| o_ok := nz ok; o_src_present := nz srcp; o_src_orig := nz srco; o_dst_orig := nz dsto; o_third_ok := nz third |} in
   {| spec := spec_ok (nz op) k (nz srcmissing) o;
-     model_eq := outcome_eqb (model_outcome (nz op) k (nz otherdev) (nz srcmissing) (nz nonempty)) o |}.
+     model_eq := outcome_eqb (model_outcome false (nz op) k (nz otherdev) (nz srcmissing) (nz nonempty)) o;
+     model_eq_replace := outcome_eqb (model_outcome true (nz op) k (nz otherdev) (nz srcmissing) (nz nonempty)) o |}.
 
-Definition verdict_ok (v : verdict) : bool := spec v && model_eq v.
+(** full verdict of one case against the strategy the run was found to follow (0 = through, 1 = replace) *)
+Definition verdict_ok_for (strategy : N) (v : verdict) : bool :=
+  spec v && (if nz strategy then model_eq_replace v else model_eq v).
+Definition verdict_ok (v : verdict) : bool := verdict_ok_for 0 v.
 
 (** the outcome the model computes, as numbers (for the driver's messages) *)
+Definition model_fields_for (strategy op kind otherdev srcmissing nonempty : N) : list bool :=
+  let o := model_outcome (nz strategy) (nz op) (kind_of_N kind) (nz otherdev) (nz srcmissing) (nz nonempty) in
+  [o_ok o; o_src_present o; o_src_orig o; o_dst_orig o; o_third_ok o].
 Definition model_fields (op kind otherdev srcmissing nonempty : N) : list bool :=
-  let o := model_outcome (nz op) (kind_of_N kind) (nz otherdev) (nz srcmissing) (nz nonempty) in
+  let o := model_outcome false (nz op) (kind_of_N kind) (nz otherdev) (nz srcmissing) (nz nonempty) in
   [o_ok o; o_src_present o; o_src_orig o; o_dst_orig o; o_third_ok o].
